@@ -439,12 +439,77 @@ func checkWalkerLoop(ctx *Ctx, key, pos string, fn *ssa.Function, call *ssa.Call
 	// skip predicate: the only guard between the loop body entry and the call besides CanAddr (whose failing edge panics) is CanInterface on the same field
 	body := L.Header.Succs[0]
 	biff, _ := body.Instrs[len(body.Instrs)-1].(*ssa.If)
-	ci, okCI := (*ssa.Call)(nil), false
+	okSkip := false
 	if biff != nil {
-		ci, okCI = isMethod(biff.Cond, "(reflect.Value).CanInterface")
+		// the skip predicate, in any of its equivalent spellings for the fields of an addressable struct value:
+		// hv.Field(i).CanInterface(), hv.Type().Field(i).IsExported(), hv.Type().Field(i).PkgPath == ""
+		typeField := func(v ssa.Value) bool {
+			// v = T.Field(i) with T = hv.Type() of the walked struct value, i the loop's own index
+			// (possibly kept in a local that is assigned once)
+			if u, ok := v.(*ssa.UnOp); ok && u.Op == token.MUL {
+				if al, ok := u.X.(*ssa.Alloc); ok {
+					var stored []ssa.Value
+					for _, r := range *al.Referrers() {
+						if st, ok := r.(*ssa.Store); ok && st.Addr == ssa.Value(al) {
+							stored = append(stored, st.Val)
+						}
+					}
+					if len(stored) == 1 {
+						v = stored[0]
+					}
+				}
+			}
+			c, ok := v.(*ssa.Call)
+			if !ok || !c.Call.IsInvoke() || c.Call.Method.Name() != "Field" || len(c.Call.Args) != 1 || c.Call.Args[0] != ssa.Value(iv) {
+				return false
+			}
+			tc, ok := isMethod(c.Call.Value, "(reflect.Value).Type")
+			return ok && tc.Call.Args[0] == structVal
+		}
+		if ci, ok := isMethod(biff.Cond, "(reflect.Value).CanInterface"); ok {
+			if fc, ok := isMethod(ci.Call.Args[0], "(reflect.Value).Field"); ok && fc.Call.Args[0] == structVal && fc.Call.Args[1] == ssa.Value(iv) {
+				okSkip = true
+			}
+		}
+		if ie, ok := isMethod(biff.Cond, "(reflect.StructField).IsExported"); ok && typeField(ie.Call.Args[0]) {
+			okSkip = true
+		}
+		if bo, ok := biff.Cond.(*ssa.BinOp); ok && bo.Op == token.EQL {
+			if c, isC := bo.Y.(*ssa.Const); isC && c.Value != nil && c.Value.ExactString() == `""` {
+				if fld, ok := bo.X.(*ssa.Field); ok && typeField(fld.X) {
+					if st, ok := fld.X.Type().Underlying().(*types.Struct); ok && st.Field(fld.Field).Name() == "PkgPath" {
+						okSkip = true
+					}
+				}
+				if u, ok := bo.X.(*ssa.UnOp); ok && u.Op == token.MUL {
+					if fa, ok := u.X.(*ssa.FieldAddr); ok {
+						if al, ok := fa.X.(*ssa.Alloc); ok {
+							if st, ok := al.Type().(*types.Pointer).Elem().Underlying().(*types.Struct); ok && st.Field(fa.Field).Name() == "PkgPath" {
+								for _, r := range *al.Referrers() {
+									if ld, ok := r.(*ssa.UnOp); ok && ld.Op == token.MUL && typeField(ld) {
+										okSkip = true
+									}
+								}
+								// no whole-value load to test: judge the single store
+								n, val := 0, ssa.Value(nil)
+								for _, r := range *al.Referrers() {
+									if sto, ok := r.(*ssa.Store); ok && sto.Addr == ssa.Value(al) {
+										n++
+										val = sto.Val
+									}
+								}
+								if n == 1 && typeField(val) {
+									okSkip = true
+								}
+							}
+						}
+					}
+				}
+			}
+		}
 	}
-	if !okCI || ci.Call.Args[0] != fieldCall {
-		fail("the first test of the loop body is not CanInterface() of Field(i)")
+	if !okSkip {
+		fail("the first test of the loop body is not the exported-field test (CanInterface / IsExported / PkgPath) of Field(i)")
 		return
 	}
 	skipEdge, goEdge := body.Succs[1], body.Succs[0]
